@@ -198,14 +198,7 @@ def run(ctx):
                 picked += r.sample(pool, min(len(pool), 14))
         cases = corpus + picked
     else:
-        # the whole product over 6 of the 9 modifier sets + a stratified sample over the other 3
-        full = [None, ("dagger",), ("control",), ("dagger", "control"), ("control", "power"), ("dagger", "dagger")]
-        rest = [c for c in cases if c not in corpus]
-        picked = [c for c in rest if c["M"] in full]
-        for pos in POS:
-            pool = [c for c in rest if c["pos"] == pos and c["M"] not in full]
-            picked += r.sample(pool, min(len(pool), 40))
-        cases = corpus + picked
+        cases = corpus + [c for c in cases if c not in corpus]
     # ---- implementation side, in chunks (one module per chunk)
     results, meta = {}, {}
     chunks = [cases[i:i + 400] for i in range(0, len(cases), 400)]
@@ -309,8 +302,8 @@ def run(ctx):
          "props/C24/impl_unitary.py dumper (checked AST -> model nodes) and tools/repo_shim.py",
          "not modelled: arguments of barrier/state_result, the function expression of a LocalCall, comptime (traced) functions, which never reach check_cfg_unitary"],
         evaluations=len(cases) + len(recs) + len(meta_names), distinct_nontrivial=nontrivial,
-        rule="cases = @guppy functions over function flags(8) x with-modifiers(9) x callee flags(8) x call position(%d); quick = corpus + stratified sample (14 per position x {function, with}), thorough = the whole product over 6 modifier sets + 40 per position over the other 3; non-trivial = the real check() rejected the program with a unitary/dagger error" % len(POS),
-        exhaustive=False,
+        rule="cases = @guppy functions over function flags(8) x with-modifiers(9) x callee flags(8) x call position(%d); quick = corpus + stratified sample (14 per position x {function, with}), thorough = the whole product; non-trivial = the real check() rejected the program with a unitary/dagger error" % len(POS),
+        exhaustive=not ctx.quick,
         traces_validated_against_impl=len(recs) if model is not None else 0, model_impl_mismatches=mismatches,
         programs=len(cases), spec_agreements=agree, spec_disagreement_classes={k: len(v) for k, v in by_class.items()},
         excluded_other_errors={k: len(v) for k, v in other.items()}, unmodelled_constructs_seen=unmodelled,
